@@ -145,6 +145,39 @@ def standard(prev, cur, hs):
             and oldwait(prev) == 0 and oldwait(cur) == 0 and in_envelope(prev) and in_envelope(cur))
 
 
+CONTRACTS = {'hub', 'reward', 'disp', 'reg', 'bsei', 'stsei', 'swap', 'oracle', 'airdrop'}
+# root operations that anybody may send: harmless when "signed" by a contract address
+PUBLIC_VERBS = {('hub', 'checkslashing'), ('hub', 'withdraw'), ('reg', 'redelegations'), ('cw', 'incallow'), ('cw', 'decallow')}
+
+
+def impersonation(t, ok):
+    """a successful ROOT transaction signed by a contract address (contracts hold no keys: on a chain
+    such a message exists only as a sub-message emitted by that contract's code).  The generators
+    produce them for C10's sender classes; the properties monitored here quantify over transactions
+    by users / owner / updater, so the rest of such a history is not judged by them."""
+    if not ok:
+        return False
+    if t[0] in ('hub', 'reward', 'disp', 'reg') and len(t) > 2:
+        return t[1] in CONTRACTS and (t[0], t[2]) not in PUBLIC_VERBS
+    if t[0] == 'cw' and len(t) > 3:
+        return t[2] in CONTRACTS and ('cw', t[3]) not in PUBLIC_VERBS
+    if t[0] == 'bond' and len(t) > 2:
+        return t[2] in CONTRACTS
+    return False
+
+
+def guarded(mon):
+    def g(hs, prev, op, ok, trace, cur, known):
+        t = track_inst(hs, op, ok)
+        if impersonation(t, ok):
+            hs['tainted'] = True
+        if hs.get('tainted'):
+            return None
+        return mon(hs, prev, op, ok, trace, cur, known)
+    g.__name__ = getattr(mon, '__name__', 'mon')
+    return g
+
+
 def track_inst(hs, op, ok):
     t = op.split(' ')
     if t[0] == 'reset':
